@@ -11,7 +11,7 @@ Init == /\ i \in 1..Len(Trace) /\ ph = "call"
 Next == /\ ph = "call" /\ ph' = "ret" /\ UNCHANGED i
         /\ LET r == Trace[i] IN
            /\ scope' = Premise(r)
-           /\ checked' = IF scope' THEN Clauses(r.op) ELSE {}
+           /\ checked' = IF scope' THEN ClausesOf(r) ELSE {}      \* Clauses(r.op) minus the statistics not requested
            /\ failed' = {c \in checked' : ~Holds(c, r)}
            /\ undecided' = {c \in checked' : Undecided(c, r)}
            /\ triggers' = {t \in KnownTriggers : TriggerHolds(t, r)}
